@@ -14,7 +14,7 @@ ENV = dict(os.environ, GOFLAGS="-mod=mod", GOPROXY="off")
 
 
 def sh(cmd, cwd=None, timeout=1800):
-    return subprocess.run(cmd, shell=True, cwd=cwd, capture_output=True, text=True, env=ENV, timeout=timeout)
+    return subprocess.run(cmd, shell=True, executable="/bin/bash", cwd=cwd, capture_output=True, text=True, env=ENV, timeout=timeout)
 
 
 def run_demo(wt, src):
@@ -31,7 +31,7 @@ def run_demo(wt, src):
         dst = os.path.join(wt, pkgdir, "zz_demo_test.go")
         shutil.copy(os.path.join(src, "demo_test.go"), dst)
         try:
-            r = sh(f"go test -vet=off -count=1 -run 'Demo|Test.*' ./{pkgdir}/ 2>&1 | tail -30", cwd=wt)
+            r = sh(f"go test -vet=off -count=1 -run 'Demo|C[0-9][0-9]' ./{pkgdir}/ 2>&1 | tail -30", cwd=wt)
             ok = "FAIL" not in r.stdout and ("ok " in r.stdout or "PASS" in r.stdout)
             return ok, r.stdout[-1500:]
         finally:
